@@ -177,10 +177,18 @@ class OtherArgs(ArgsNamespace, render_cls=Other):
 # wire format
 
 
+class AppPadding(AlignedPadding):
+    """a trivial application subclass (`AlignedPadding.resolve()` builds `type(self)(…)`)"""
+
+
+PAD_SUB = [False]  # per run (cfg `padsub`): aligned paddings are instances of the subclass
+
+
 def mk_padding(p):
     if p[0] == "exact":
         return ExactPadding(p[1], p[2], p[3], p[4], FILLS[p[5]])
-    return AlignedPadding(p[1], p[2], HAlign(p[3]), VAlign(p[4]), FILLS[p[5]])
+    cls = AppPadding if PAD_SUB[0] else AlignedPadding
+    return cls(p[1], p[2], HAlign(p[3]), VAlign(p[4]), FILLS[p[5]])
 
 
 # Python spellings of one wire value (equal AND hash-equal objects of different types).  `mode` 0 = the
@@ -304,6 +312,7 @@ class RealRun:
     def __init__(self, c):
         set_term(*c["term"])
         PYVAR["mode"], PYVAR["ctr"] = c.get("pyvar", 0), 0
+        PAD_SUB[0] = bool(c.get("padsub"))
         self.r = r = TR(c["count"], mk_dur(c["dur"]) if c["count"] != 1 else 1, c["size"], c["stream"], c["stop_at"], c["fail_at"],
                            postponed=bool(c.get("postponed")) and c["count"] != 1)
         if c["rframe"]:
@@ -657,6 +666,7 @@ def gen_case(rng, tier, flavour):
         "stream": rng.choice([0, 1, 2, 3, 5, 8]) if n is None else 0,
         "stop_at": None, "fail_at": None,
         "ctor": rng.choice([0, 0, 1, 1]), "finalize": rng.choice([0, 1]), "kw": rng.choice([0, 1, 1, 2]),
+        "padsub": rng.random() < 0.4,  # aligned paddings as instances of a subclass of AlignedPadding
         # constructed with FrameCount.POSTPONED, resolved by the `frame_count` property to `count`
         "postponed": rng.random() < 0.25,
     }
@@ -928,7 +938,7 @@ def shrink_history(c, ops, key):
                 else:
                     i += 1
     c = dict(c)
-    for k, v in (("postponed", False), ("kw", 0), ("rframe", 0), ("args", None), ("ctor", 0), ("padding", ["exact", 0, 0, 0, 0, 0]), ("dur", 7),
+    for k, v in (("postponed", False), ("padsub", False), ("kw", 0), ("rframe", 0), ("args", None), ("ctor", 0), ("padding", ["exact", 0, 0, 0, 0, 0]), ("dur", 7),
                  ("cache", ["b", 0]), ("loops", 1), ("stop_at", None), ("fail_at", None)):
         if c.get(k) != v:
             c2 = dict(c)
